@@ -1,5 +1,6 @@
 import Heathcliff.Proofs.C03K
 import Heathcliff.Proofs.C03S
+import Heathcliff.Proofs.GenEvalSq
 import Heathcliff.Proofs.C02K
 import Heathcliff.Proofs.C07L
 import Heathcliff.Proofs.GenValid
@@ -168,6 +169,15 @@ theorem ckks_square_phase : type_of% @HC.ckks_square_phase := @HC.ckks_square_ph
 /-- square refuses a coefficient-form operand, and more than 8 polynomials (result size > 16) -/
 theorem ckks_square_refuses_coeff : type_of% @HC.ckks_square_refuses_coeff := @HC.ckks_square_refuses_coeff
 theorem ckks_square_refuses_size : type_of% @HC.ckksSquare_refuse_size := @HC.ckksSquare_refuse_size
+
+/-- translator tie (task S): the DATA of `Evaluator::ckks_square`, generated over the flat buffer (`GenC.ct_ckks_square`), fast path (size 2,
+    NTT form) = the flattened `ckksSquare` of the model - the in-place order `c2 = c1·c1, c1 = c0·c1, c1 += c1, c0 = c0·c0` -, THEN the
+    bookkeeping of a ciphertext product (`ckksProductBookkeeping`) -/
+theorem gen_ct_ckks_square_eq : type_of% @HC.gs_ckks_square_eq := @HC.gs_ckks_square_eq
+
+/-- dispatch: coefficient form refused; every size but 2 goes to `ckks_multiply(x, &x.clone())` (route 1) - as the model by definition -/
+theorem gen_ct_ckks_square_dispatch : type_of% @HC.gs_ckks_square_dispatch := @HC.gs_ckks_square_dispatch
+theorem ckksSquare_fallback : type_of% @HC.ckksSquare_fallback := @HC.ckksSquare_fallback
 
 /-- multiply_plain refuses a coefficient-form ciphertext -/
 theorem ckks_multiply_plain_refuses_coeff : type_of% @HC.ckks_multiply_plain_refuses_coeff := @HC.ckks_multiply_plain_refuses_coeff
